@@ -492,6 +492,11 @@ def run(fx, tier):
     # dominated by  header bytes + Remaining Length <= capacity  (any arrangement of that linear inequality).
     frame_fit(fx, v)
     recovery_after_internal_disconnect(fx, v)
+    from c04 import reconnect_discards_buffer_rule
+    v.rule('R-DOM', 'bytes buffered from a lost connection are discarded before the next read; exact-count reads of the handshake are not replaced by raw partial reads')
+    reconnect_discards_buffer_rule(fx, v, 'C19')
+    from c02 import raw_io_rule
+    raw_io_rule(fx, v, 'C19', 'R-DOM')
     v.expect_min('R-BOUNDS', 25, 'advance/buffer/span sinks')
     v.expect_min('R-PRE', 12, 'decoder call sites')
     v.expect_min('R-DEREF', 10, 'cursor dereferences × instantiations')
